@@ -146,7 +146,7 @@ theorem symbol_address_mapped (m : HoleMap) (o o' : Obj) (hok : HolesOK m) (h : 
       · unfold getSymbolIdValue
         rw [hf]; simp [hv, hs, hso]
       · unfold getSymbolIdValue
-        rw [hf', e]; simp [hs, b]
+        rw [hf', e]; simp [b]
 
 /-! ## the shrunk instruction -/
 
@@ -178,7 +178,8 @@ example : Model.Reloc.Rvc.cbImm11 0x100c [0xef, 0, 0, 0] 0x1004 = .ok [0xef, 0, 
     into `c.jal`, which links `ra` — producers must only announce cbl_imm11 for `rd = ra` (fixed in
     `CBl.relocations`, commit f0b404d) -/
 example : Model.Reloc.fromLE [0xef, 2, 0, 0] / 128 % 32 = 5 ∧
-    (Spec.RV32.decodeC (Spec.RelocSem.wordLE (patch .cjal [0xef, 2, 0, 0]))).map (·.expand) = some (.jal 1 0) := by
+    (Spec.RV32.decodeC (Spec.RelocSem.wordLE (patch .cjal [0xef, 2, 0, 0]))).map
+      (fun c => match c.expand with | .jal rd _ => rd | _ => 99) = some 1 := by
   decide +kernel
 
 /-! ## range: shrunk jumps stay in reach -/
@@ -209,5 +210,142 @@ def stays_in_range_full : Prop :=
       strictlyInside (holesOf m n₁) p = false → strictlyInside (holesOf m n₂) t = false →
       fits12 (((s₂.address + t : Nat) : Int) - ((s₁.address + p : Nat) : Int)) →
       fits12 (((s₂'.address + phi (holesOf m n₂) t : Nat) : Int) - ((s₁'.address + phi (holesOf m n₁) p : Nat) : Int))
+
+/-- a two-image object: `code` (image m1 at 0x1000) holds `j n; n: j t`, `t` is at offset 2 of `code2`
+    (image m2 at 0x1800): unrelaxed distance of the second jump 0x1802 - 0x1004 = 2046 -/
+def exCross : Obj := {
+  sections := [{ name := "code", address := 0x1000, alignment := 4, data := [0x6f, 0, 0, 0, 0x6f, 0, 0, 0] },
+               { name := "code2", address := 0x1800, alignment := 4, data := [1, 0, 0x73, 0, 0x10, 0] }],
+  symbols := [{ id := 0, name := "n", binding := .loc, value := some 4, sect := some "code", typ := "object", size := 0 },
+              { id := 1, name := "t", binding := .loc, value := some 2, sect := some "code2", typ := "object", size := 0 }],
+  relocs := [{ typ := "cb_imm11", symbolId := 0, sect := "code", offset := 0, addend := 0 },
+             { typ := "cb_imm11", symbolId := 1, sect := "code", offset := 4, addend := 0 }],
+  images := [{ name := "m1", address := 0x1000, sections := ["code"] }, { name := "m2", address := 0x1800, sections := ["code2"] }] }
+
+/-- both jumps are shrunk (holes at 2 and 6 of `code`); `code2` is in another image and does not move -/
+example : (match doRelaxations exCross with
+    | .ok (o, m) => (m, o.sections.map (fun s => (s.address, s.data.length)), o.symbols.map (·.value), o.relocs.map (fun r => (r.typ, r.offset)))
+    | .error _ => ([], [], [], [])) =
+    ([("code", (2, 2)), ("code", (6, 2))], [(0x1000, 4), (0x1800, 6)], [some 2, some 2], [("bc_imm11", 0), ("bc_imm11", 2)]) := by
+  decide +kernel
+
+/-- the object after the candidate loop of `exCross` with only the first hole, and what
+    `_apply_relaxation_holes` makes of it -/
+def exB : Obj := { exCross with relocs := [] }
+def exB' : Obj := { exB with
+  sections := [{ name := "code", address := 0x1000, alignment := 4, data := [0x6f, 0, 0x6f, 0, 0, 0] },
+               { name := "code2", address := 0x1800, alignment := 4, data := [1, 0, 0x73, 0, 0x10, 0] }],
+  symbols := [{ id := 0, name := "n", binding := .loc, value := some 2, sect := some "code", typ := "object", size := 0 },
+              { id := 1, name := "t", binding := .loc, value := some 2, sect := some "code2", typ := "object", size := 0 }] }
+
+/-- NEGATION WITNESS for `stays_in_range_full`: a jump at offset 4 of `code` to offset 2 of `code2` in the
+    next image: distance 0x1802 - 0x1004 = 2046 before, 0x1802 - 0x1002 = 2048 afterwards -/
+theorem stays_in_range_full_fails : ¬ stays_in_range_full := by
+  intro h
+  have hm : HolesOK [("code", ((2, 2) : Hole))] := holesOK_of_names (by decide +kernel)
+  have := h [("code", (2, 2))] exB exB' hm (by decide +kernel) "code" "code2"
+    { name := "code", address := 0x1000, alignment := 4, data := [0x6f, 0, 0, 0, 0x6f, 0, 0, 0] }
+    { name := "code2", address := 0x1800, alignment := 4, data := [1, 0, 0x73, 0, 0x10, 0] }
+    { name := "code", address := 0x1000, alignment := 4, data := [0x6f, 0, 0x6f, 0, 0, 0] }
+    { name := "code2", address := 0x1800, alignment := 4, data := [1, 0, 0x73, 0, 0x10, 0] }
+    4 2 (by decide +kernel) (by decide +kernel) (by decide +kernel) (by decide +kernel)
+    (by decide) (by decide) (by decide +kernel) (by decide +kernel) (by decide +kernel)
+  revert this
+  decide +kernel
+
+/-- … and what the real pipeline then does with it: relaxation + relocation of `exCross` succeeds (the
+    `bc_imm11` range check lets `(S-P)/2 = 1024` through) and the second jump, now at 0x1002, is a
+    `c.j` with offset -2048: it goes to 0x802 instead of 0x1802.  Known finding
+    `relax:wrong-target:bc_imm11:cross-image`. -/
+example : (match finish exCross with
+    | .ok (o, _) => (o.sections.map (·.data)).head?.map (fun d => (Spec.RV32.decodeC (Spec.RelocSem.wordLE (d.drop 2 |>.take 2))))
+    | .error _ => none) = some (some (.j (-2048))) := by decide +kernel
+
+/-! ## alignment -/
+
+/-- the full statement "a section that was aligned stays aligned" — NOT a theorem of the code
+    (`section.address -= delta` ignores `section.alignment`; the source says so in a TODO): -/
+def alignment_preserved_full : Prop :=
+  ∀ (m : HoleMap) (o o' : Obj), HolesOK m → applyHoles m o = .ok o' → (o.images.flatMap (·.sections)).Nodup →
+    ∀ (n : String) (so sn : Section), getSec o.sections n = some so → getSec o'.sections n = some sn →
+      so.address % so.alignment = 0 → sn.address % sn.alignment = 0
+
+def exAlign : Obj := {
+  sections := [{ name := "code", address := 0x1000, alignment := 4, data := [0x6f, 0, 0, 0, 0x73, 0, 0x10, 0] },
+               { name := "data", address := 0x1008, alignment := 4, data := [5, 0, 0, 0] }],
+  images := [{ name := "flash", address := 0x1000, sections := ["code", "data"] }] }
+
+/-- NEGATION WITNESS: one shrunk jump in `code` moves the 4-aligned `data` from 0x1008 to 0x1006.
+    Known findings `relax:section-misaligned` (and, when a word there carries an absaddr32 relocation,
+    `relaxed-link-fails:AssertionError:absaddr32`). -/
+theorem alignment_preserved_full_fails : ¬ alignment_preserved_full := by
+  intro h
+  have hm : HolesOK [("code", ((2, 2) : Hole))] := holesOK_of_names (by decide +kernel)
+  have := h [("code", (2, 2))] exAlign
+    { exAlign with sections := [{ name := "code", address := 0x1000, alignment := 4, data := [0x6f, 0, 0x73, 0, 0x10, 0] },
+                                { name := "data", address := 0x1006, alignment := 4, data := [5, 0, 0, 0] }] }
+    hm (by decide +kernel) (by decide +kernel) "data"
+    { name := "data", address := 0x1008, alignment := 4, data := [5, 0, 0, 0] }
+    { name := "data", address := 0x1006, alignment := 4, data := [5, 0, 0, 0] }
+    (by decide +kernel) (by decide +kernel) (by decide)
+  revert this
+  decide
+
+/-- the number of bytes removed in front of each section of an image is a multiple of its alignment -/
+def AlignSafe (m : HoleMap) : Nat → List Section → Prop
+  | _, [] => True
+  | d, s :: r => d % s.alignment = 0 ∧ AlignSafe m (d + change m s.name) r
+
+/-- what does hold: the sections of an image stay aligned when the bytes removed in front of each one are
+    a multiple of its alignment (in particular the first section of every image) -/
+theorem alignment_preserved_partial (m : HoleMap) : ∀ (news : List Section) (d : Nat), AlignSafe m d news →
+    ShiftFits m d news → (∀ s ∈ news, s.address % s.alignment = 0) →
+    ∀ s' ∈ shiftRes m d news, s'.address % s'.alignment = 0
+  | [], _, _, _, _ => by intro s' hs'; cases hs'
+  | s :: r, d, hsafe, hfit, hal => by
+    intro s' hs'
+    simp only [shiftRes, List.mem_cons] at hs'
+    rcases hs' with rfl | hs'
+    · simp only [setAddress]
+      apply Nat.sub_mod_eq_zero_of_mod_eq
+      rw [hal s (by simp), hsafe.1]
+    · exact alignment_preserved_partial m r _ hsafe.2 hfit.2 (fun x hx => hal x (by simp [hx])) s' hs'
+
+/-! ## `do_relaxations` as a whole -/
+
+/-- `do_relaxations` either finds nothing (no hole, only section data could have been touched — and is
+    not) or is `_apply_relaxation_holes` on the object with patched section data and replaced relocation
+    entries; the registered holes are ascending and disjoint per section as soon as the shrinkable
+    relocation sites of a section do not overlap.  All theorems above then apply to `o₁`. -/
+theorem relaxation_is_hole_punching (o o' : Obj) (m : HoleMap) (h : doRelaxations o = .ok (o', m))
+    (hsep : SitesSeparated o.relocs) :
+    HolesOK m ∧
+    ((m = [] ∧ o'.symbols = o.symbols ∧ o'.relocs = o.relocs ∧ o'.images = o.images ∧
+        All2 (fun s s' => s'.name = s.name ∧ s'.address = s.address ∧ s'.alignment = s.alignment) o.sections o'.sections) ∨
+     (∃ o₁ : Obj, applyHoles m o₁ = .ok o' ∧ o₁.symbols = o.symbols ∧ o₁.images = o.images ∧ o₁.entry = o.entry ∧
+        All2 (fun s s' => s'.name = s.name ∧ s'.address = s.address ∧ s'.alignment = s.alignment) o.sections o₁.sections ∧
+        (o₁.relocs.map relKey).Perm (o.relocs.map relKey) ∧
+        ∀ p ∈ m, ∃ r ∈ o.relocs, isShrinkable r.typ = true ∧ p = (r.sect, (r.offset + 2, 2)))) := by
+  refine ⟨doRelaxations_holesOK h hsep, ?_⟩
+  obtain ⟨secs, cs, h1, hm, hcase⟩ := doRelaxations_inv h
+  obtain ⟨hshape, hsub, hc⟩ := scan_spec h1
+  rcases hcase with ⟨hcs, ho⟩ | ⟨hne, rels, hr, happ⟩
+  · left
+    subst hcs
+    subst ho
+    exact ⟨by simpa using hm, rfl, rfl, rfl, hshape⟩
+  · right
+    refine ⟨{ o with sections := secs, relocs := rels }, happ, rfl, rfl, rfl, hshape, replaceRelocs_keys hr, ?_⟩
+    intro p hp
+    rw [hm] at hp
+    have hne' : cs.isEmpty = false := by cases cs with | nil => exact absurd rfl hne | cons _ _ => rfl
+    rw [hne'] at hp
+    simp only [Bool.false_eq_true, if_false, List.mem_map] at hp
+    obtain ⟨c, hcm, rfl⟩ := hp
+    obtain ⟨e1, e2⟩ := hc c hcm
+    exact ⟨c.reloc, hsub.subset (List.mem_map.2 ⟨c, hcm, rfl⟩), e2, by rw [e1]⟩
+
+/-- non-vacuity on `exCross`: the sites are separated, both jumps are taken -/
+example : SitesSeparated exCross.relocs := by unfold SitesSeparated; decide +kernel
 
 end Props.C13
